@@ -118,11 +118,18 @@ CONFIG["C05"] = {
     "assumptions": ["direction-grid areas, arcs and angles are the subject of C03"],
 }
 CONFIG["C12"] = {
-    "level": "exploration", "proof": False, "rtc": True,
-    "explanation": "Bounded run-time contract, exhaustive over all trajectories of length <= 6 (quick) / 8 (thorough) over {0,1,2,NaN}, "
-                   "tau 1..3, both window modes, plus random long trajectories: real MSM transition matrix vs brute-force counts, row "
-                   "sums, range, detailed balance w.r.t. visit counts, reversal invariance.",
-    "assumptions": [],
+    "level": "other", "proof": True, "rtc": True,
+    "explanation": "Proved: window() as a sequence contract for all trajectories, lags and steps (loop invariant with ghost rank: the "
+                   "k-th valid window (x_k, x_{k+tau}), k = 0, step, ... < L-tau, NaN windows skipped, is yielded at position rank(k); "
+                   "every yield comes from a valid window, in order), noncorr_window = window with step tau, "
+                   "MSM.get_one_tau_transition_matrix for both modes (loop invariant: count matrix = c + c^T over the consumed yields; "
+                   "result T(i,j) = M(i,j)/s_i with s_i = row total or 1), lemmas (detailed balance w.r.t. visit counts, unit interval, "
+                   "visited rows sum to 1, unvisited rows zero). Bounded only: reversal invariance and the identification of counts over "
+                   "yields with counts over windows, exhaustively for all trajectories of length <= 6/8 over {0,1,2,NaN}.",
+    "trusted_base": [NUMPY, SCIPY_SPARSE + "; dok item access, diags, diagonal.dot(sparse)",
+                     "ghost rank/source functions of the window sequence defined by recursion (conservative extension)"],
+    "assumptions": ["counting-under-bijection lemma (count over the yield sequence = count over valid windows) is not proved deductively",
+                    "tau is modelled as an integer (the code applies int(tau))"],
 }
 CONFIG["C13"] = {
     "level": "exploration", "proof": False, "rtc": True,
